@@ -15,6 +15,7 @@ import json
 import os
 import random
 import re
+import shutil
 import time
 
 import vlib
@@ -669,6 +670,8 @@ def run(tier, replay):
         "TSan sees the handler race through a plain shadow variable written by the interposed setter (libgsl itself is not instrumented)",
     ]
     ck.set("wall_model_and_schedules_s", round(time.time() - t_start, 1))
+    if not os.environ.get("C12_KEEP"):
+        shutil.rmtree(wd, ignore_errors=True)   # logs of several 100 MB in the thorough tier; replay files are self-contained
     return ck.finish()
 
 
